@@ -638,6 +638,24 @@ export class TypeGen {
             },
           ],
         ])();
+        // a type parameter named like a declared type that another declaration mentions: inside that
+        // other declaration the name still means the declared type (parameters are lexically scoped)
+        {
+          const plain = this.decls.filter((d) => (d.d === "alias" || d.d === "iface") && !(d.params || []).length);
+          const pairs = [];
+          for (const b of plain) {
+            const mentioned = new Set();
+            A.mapDecl(b, (x) => {
+              if (x.k === "ref" && !(x.args || []).length) mentioned.add(x.name);
+              return x;
+            });
+            for (const a of plain) if (a.name !== b.name && mentioned.has(a.name) && /^[A-Za-z_][A-Za-z0-9_]*$/.test(a.name)) pairs.push([a, b]);
+          }
+          if (pairs.length && r.chance(0.3)) {
+            const [a, b] = r.pick(pairs);
+            return tryAdd({ d: "alias", name, params: [a.name], t: A.obj([A.prop("items", A.arr(A.ref(b.name))), A.prop("cursor", A.ref(a.name)), A.prop("one", A.ref(b.name), true)]), doc });
+          }
+        }
         // a generic interface that extends another generic with (a transformation of) its own parameter
         const parents = this.decls.filter((d) => d.params && d.params.length === 1 && ((d.d === "iface" && !(d.ext || []).length) || (d.d === "alias" && d.t.k === "obj")));
         if (parents.length && r.chance(0.25)) {
